@@ -14,6 +14,7 @@ import (
 	"sync"
 	"testing"
 
+	"google.golang.org/protobuf/encoding/protowire"
 	"google.golang.org/protobuf/reflect/protoreflect"
 	"pgregory.net/rapid"
 
@@ -366,6 +367,41 @@ func c12Sweep(level int, emit func(C12Case)) {
 				emit(C12Case{Type: tn, Origin: "sweep:" + sn + "." + lf.label, Msg: C12Msg{F: []C12Fld{lf.f}}})
 			}
 		}
+		// unknown fields: one of each wire type at the root, alone and behind a fully populated
+		// message; a few numbers; one inside each sub-message field
+		nums := c12UnknownNumbers(ty.md)
+		unks := []C12Unk{
+			{Num: nums[0], W: "varint", V: 300}, {Num: nums[0], W: "fixed32", V: 0xdeadbeef}, {Num: nums[0], W: "fixed64", V: 1 << 63},
+			{Num: nums[0], W: "bytes", X: []byte("new")}, {Num: nums[0], W: "bytes"}, {Num: nums[0], W: "bytes", X: []byte{'u'}, R: 300},
+			{Num: nums[0], W: "bytes", X: []byte{8, 1}},
+		}
+		for _, n := range nums[1:] {
+			unks = append(unks, C12Unk{Num: n, W: "varint", V: 1})
+		}
+		for _, u := range unks {
+			lbl := fmt.Sprintf("unknown field %d (%s)", u.Num, u.W)
+			emit(C12Case{Type: tn, Origin: "sweep:" + sn + " {} + " + lbl, Msg: C12Msg{U: []C12Unk{u}}})
+			if u.Num == nums[0] {
+				full := c12Full(ty.md, 1, 2)
+				full.U = []C12Unk{u}
+				emit(C12Case{Type: tn, Origin: "sweep:" + sn + " full + " + lbl, Msg: *full})
+			}
+		}
+		emit(C12Case{Type: tn, Origin: "sweep:" + sn + " {} + three unknown fields", Msg: C12Msg{U: []C12Unk{unks[3], unks[0], unks[1]}}})
+		for i := 0; i < fs.Len(); i++ {
+			fd := fs.Get(i)
+			if fd.Kind() != protoreflect.MessageKind || fd.IsMap() {
+				continue
+			}
+			sub := &C12Msg{U: []C12Unk{{Num: c12UnknownNumbers(fd.Message())[0], W: "bytes", X: []byte("nested")}}}
+			f := C12Fld{Num: int32(fd.Number()), Name: string(fd.Name())}
+			if fd.IsList() {
+				f.L = []C12Val{{M: &C12Msg{}}, {M: sub}}
+			} else {
+				f.V = &C12Val{M: sub}
+			}
+			emit(C12Case{Type: tn, Origin: fmt.Sprintf("sweep:%s.%s with an unknown field inside", sn, fd.Name()), Msg: C12Msg{F: []C12Fld{f}}})
+		}
 		// pairs: every field at its distinct value next to every other one alone is covered
 		// by "full"; additionally each field *missing* from an otherwise full message
 		if fs.Len() > 1 {
@@ -605,6 +641,56 @@ func c12GenField(t *rapid.T, fd protoreflect.FieldDescriptor, depth int, g c12Ge
 	return f
 }
 
+// c12UnknownNumbers: field numbers md does not define — just above its highest field, the
+// tag-length boundaries (15/16, 2047/2048), 100, 1000, around the reserved range
+// 19000-19999 (never inside it) and the largest legal number.
+func c12UnknownNumbers(md protoreflect.MessageDescriptor) []int32 {
+	maxNum := int32(0)
+	fs := md.Fields()
+	for i := 0; i < fs.Len(); i++ {
+		if n := int32(fs.Get(i).Number()); n > maxNum {
+			maxNum = n
+		}
+	}
+	var out []int32
+	for _, n := range []int32{maxNum + 1, maxNum + 2, 15, 16, 100, 1000, 2047, 2048, 18999, 20000, 536870911, 536870910} {
+		if md.Fields().ByNumber(protoreflect.FieldNumber(n)) == nil && n >= 1 && (n < 19000 || n > 19999) {
+			out = append(out, n)
+		}
+	}
+	return out
+}
+
+var c12UnkWires = []string{"varint", "fixed32", "fixed64", "bytes"}
+
+// c12GenUnknown draws one unknown field for a message of type md; have: the ones already
+// there (a repeated number is legal).
+func c12GenUnknown(t *rapid.T, md protoreflect.MessageDescriptor, have []C12Unk) C12Unk {
+	nums := c12UnknownNumbers(md)
+	u := C12Unk{Num: nums[rapid.IntRange(0, len(nums)-1).Draw(t, "unknum")], W: c12UnkWires[rapid.IntRange(0, 3).Draw(t, "unkwire")]}
+	switch u.W {
+	case "bytes":
+		switch c12Gen8.Draw(t, "unkbytes") {
+		case 0, 1:
+			// empty
+		case 2, 3, 4:
+			u.X = c12GenBytes.Draw(t, "x")
+		case 5:
+			u.X, u.R = []byte{'u'}, rapid.SampledFrom([]int{127, 128, 300, 16384}).Draw(t, "len")
+		default:
+			// looks like a nested message of a newer protocol version
+			u.X = protowire.AppendVarint(protowire.AppendTag(nil, 1, protowire.VarintType), 1)
+		}
+	case "varint":
+		u.V = rapid.SampledFrom([]uint64{0, 1, 127, 128, math.MaxUint32, math.MaxUint64}).Draw(t, "v")
+	case "fixed32":
+		u.V = uint64(rapid.SampledFrom([]uint32{0, 1, math.MaxUint32}).Draw(t, "v"))
+	default:
+		u.V = rapid.SampledFrom([]uint64{0, 1, math.MaxUint64}).Draw(t, "v")
+	}
+	return u
+}
+
 var c12ListGroups = map[protoreflect.FullName]map[protoreflect.FieldNumber]bool{}
 
 // c12SameTypeLists: the repeated fields of md that share their element type with another
@@ -666,6 +752,18 @@ func c12GenMsg(t *rapid.T, md protoreflect.MessageDescriptor, depth int, g c12Ge
 			f.L, f.Empty = []C12Val{c12GenElem(t, fd, depth, g)}, false
 		}
 		out.F = append(out.F, f)
+	}
+	// unknown fields (a peer built against a newer protocol): the root with more weight than
+	// nested messages, 1-3 fields
+	unkThr := 7
+	if depth == 0 {
+		unkThr = 6
+	}
+	if c12Gen8.Draw(t, "unknown?") >= unkThr {
+		n := rapid.IntRange(1, 3).Draw(t, "unknowns")
+		for i := 0; i < n; i++ {
+			out.U = append(out.U, c12GenUnknown(t, md, out.U))
+		}
 	}
 	return out
 }
